@@ -45,3 +45,15 @@ func debugDump(p *Prog, pat string) {
 		}
 	}
 }
+
+// dumpLoops lists every range loop of the analysed packages with its early exits (-loops).
+func dumpLoops(c *Ctx) {
+	for _, pk := range []string{"in_toto", "internal/spiffe", "cmd"} {
+		for _, f := range c.srcFuncs(pk) {
+			for _, l := range rangeLoops(f) {
+				ex := c.earlyExits(l)
+				fmt.Printf("%s\t%s\t%s\texits=%d\n", fname(f), c.Fset.Position(l.pos), short(l.over), len(ex))
+			}
+		}
+	}
+}
